@@ -131,8 +131,7 @@ void h_Term_call_tau_range(void)
   if (g_pole_pos) REACH("exit_pos"); else REACH("exit_nonpos");
 }
 
-/* ---- lemmas: the sign / NaN facts assumed of '*' and '/' in stubs/fp_axiom.h hold for CBMC's bit-precise IEEE-754
- * operations (M1, M2, D1, D2).  The magnitude facts M3, D3 are not decided by the SAT back end and stay assumed. */
+/* ---- lemmas: the facts assumed of '*' and '/' in stubs/fp_axiom.h hold for CBMC's bit-precise IEEE-754 operations. */
 //@harness h_lemma_fmul_sign enforce=none props=C11 defs=-DVERIF_FP_IEEE,-DVERIF_FP_AXIOM min_obl=1 reach=1 timeout=300
 void h_lemma_fmul_sign(void)
 {
@@ -148,6 +147,24 @@ void h_lemma_fdiv_sign(void)
 #ifdef VERIF_FP_AXIOM
   double a = nondet_double(), b = nondet_double();
   __CPROVER_assert(fa_div_sign_ok(a, b, fa_native_div(a, b)), "D1,D2: a/b of finite operands, b != 0, is not NaN and obeys the sign rule");
+  REACH("exit");
+#endif
+}
+//@harness h_lemma_fmul_mag enforce=none props=C11 defs=-DVERIF_FP_IEEE,-DVERIF_FP_AXIOM min_obl=6 reach=1 timeout=600
+void h_lemma_fmul_mag(void)
+{
+#ifdef VERIF_FP_AXIOM
+  double a = nondet_double(), b = nondet_double();
+  __CPROVER_assert(fa_mul_mag_ok(a, b, fa_native_mul(a, b)), "M3: |b| <= 1 ==> |a*b| <= |a|");
+  REACH("exit");
+#endif
+}
+//@harness h_lemma_fdiv_mag enforce=none props=C11 defs=-DVERIF_FP_IEEE,-DVERIF_FP_AXIOM min_obl=6 reach=1 timeout=600
+void h_lemma_fdiv_mag(void)
+{
+#ifdef VERIF_FP_AXIOM
+  double a = nondet_double(), b = nondet_double();
+  __CPROVER_assert(fa_div_mag_ok(a, b, fa_native_div(a, b)), "D3: |b| >= 1 ==> |a/b| <= |a|");
   REACH("exit");
 #endif
 }
